@@ -1,7 +1,7 @@
 (* C03 — Delete/Erase/Slice remove exactly the requested residues and features
    follow.  Delete maps every location through Expand(i, -n); Slice through
    Expand(end, end-len) then Expand(0, -start). *)
-From GTS Require Import Base Arith Loc Seq BaseLemmas LocProofs EditProofs SeqProofs.
+From GTS Require Import Base Arith Loc Seq BaseLemmas LocProofs EditProofs SeqProofs JoinDen JoinLift.
 Open Scope Z_scope.
 
 (* residues: seq[:i] + seq[i+n:] *)
@@ -26,6 +26,23 @@ Example C03_example :
   jfree l = true /\ ord_ok l = true /\
   expand l 3 (- 3) = Ok (Complemented (Ordered [Ranged 1 3 false true; Point 3])) /\
   del_den 3 3 (den l) = [(3, true); (2, true); (1, true)].
+Proof. vm_compute. repeat split; reflexivity. Qed.
+
+(* the same statement for EVERY location (joins included), up to adjacent
+   duplicates, whenever the images of the leaves are k1-free (see C02); when a
+   deletion makes a point land on the end of a range the code does lose that
+   base: known finding K1. *)
+Theorem C03_expand_neg_den_joins : forall i n, 0 < n -> forall l,
+  k1_after (fun x => expand x i (- n)) l ->
+  forall l', expand l i (- n) = Ok l' -> deq (den l') (del_den i n (den l)).
+Proof. exact expand_neg_den_all. Qed.
+Print Assumptions C03_expand_neg_den_joins.
+
+Example C03_joins_example :
+  let l := Joined [Ranged 0 3 false false; Ranged 5 9 false false; Point 11] in
+  k1_afterb (fun x => expand x 3 (- 2)) l = true /\
+  expand l 3 (- 2) = Ok (Joined [Ranged 0 7 false false; Point 9]) /\
+  k1_afterb (fun x => expand x 9 (- 2)) l = false.   (* the K1 shape: Point 11 lands on the end 9 *)
 Proof. vm_compute. repeat split; reflexivity. Qed.
 
 (* the metadata clause: REFERENCE base ranges of a slice (GenBankFields.Slice,
